@@ -35,6 +35,17 @@ def PatternGrammar (s : String) : Prop :=
     (splitAll s)[i] = wildcardOne ∨ ((splitAll s)[i] = wildcardTail ∧ i + 1 = (splitAll s).length) ∨
       hasWildChar (splitAll s)[i] = false
 
+/-- the client-side acceptance condition of the property: well-formed topic, local interest, claimed
+identity is a key of a member, owner-namespace rule, not stale, signature verifies under the claimed
+identity, id not recorded (not replayed), payload readable -/
+def ClientSt.accepts (s : ClientSt) (space topic claimed : String) (sigOk : Bool) (ts : TsClass)
+    (id : Nat) (keyId : Bool) : Bool :=
+  validateTopic topic && !(s.localMatch space topic).isEmpty &&
+  (match ctxAccount claimed with
+   | some acct => s.isMember space acct && (topicOwner topic == "" || acct == topicOwner topic)
+   | none => false) &&
+  !ClientSt.stale ts && sigOk && !s.ring.contains id && !keyId
+
 /-- the node reached by following `q` from a level -/
 def nodeAt : Level → List String → Option Node
   | _, [] => none
@@ -74,5 +85,38 @@ def pathsLevel : List (String × Node) → List (List String)
   | [] => []
   | (k, n) :: rest => (n.paths.map (k :: ·)) ++ pathsLevel rest
 end
+
+/-! ### serving side: the relation the three views describe -/
+
+/-- registered interest according to the per-stream records (`streams[id].bySpace[space]`) -/
+def NodeSt.Reg (s : NodeSt) (sid : Nat) (space p : String) : Prop :=
+  ∃ r pats, nlookup sid s.streams = some r ∧ alookup space r.bySpace = some pats ∧ p ∈ pats
+
+/-- **the three views agree**: the space tries (`remote`), the per-stream records (`streams`) and the
+stream tags of the pool describe one relation `(stream, space, pattern)`. -/
+structure NodeSt.Agree (s : NodeSt) : Prop where
+  poolNodup : (s.pool.map (·.sid)).Nodup
+  trieReach : ∀ space t, alookup space s.remote = some t → t.Reachable
+  trieCount : ∀ space t, alookup space s.remote = some t → ∀ p, (t.count p > 0 ↔ ∃ sid, s.Reg sid space p)
+  trieHas : ∀ sid space p, s.Reg sid space p → ∃ t, alookup space s.remote = some t
+  tags : ∀ st, st ∈ s.pool → ∀ tag, (tag ∈ st.tags ↔ ∃ space p, s.Reg st.sid space p ∧ tag = interestTag space p)
+  inPool : ∀ sid space p, s.Reg sid space p → ∃ st, st ∈ s.pool ∧ st.sid = sid
+  validReg : ∀ sid space p, s.Reg sid space p → validSpaceId space = true
+
+/-- all interest bookkeeping is gone -/
+def NodeSt.Clean (s : NodeSt) : Prop :=
+  s.remote = [] ∧ s.streams = [] ∧ ∀ st, st ∈ s.pool → st.tags = []
+
+/-- the publisher conditions of the property for a frame arriving on a stream of `peer` whose
+handshake-proven identity is `ident` -/
+def NodeSt.publishAccepted (s : NodeSt) (peer ident space topic msgIdent : String)
+    (relayed idLenOk big : Bool) : Bool :=
+  idLenOk && !big && validateTopic topic && !s.notResp.contains space &&
+  (if relayed then s.nodePeers.contains peer
+   else ident ≠ "-" && msgIdent == ident &&
+     (match ctxAccount ident with
+      | some acct => s.isMember space acct && (topicOwner topic == "" || acct == topicOwner topic)
+      | none => false) &&
+     decide ((alookup peer s.rateUsed).getD 0 < s.burst))
 
 end AnySync.PubSub
